@@ -74,6 +74,10 @@ fn main() {
         println!("INCONCLUSIVE property={} reason={}", prop, e);
         std::process::exit(2);
     }
+    if let Err(e) = model::tzif_ref::self_check() {
+        println!("INCONCLUSIVE property={} reason={}", prop, e);
+        std::process::exit(2);
+    }
     if let Err(e) = model::cron_spec::self_check() {
         println!("INCONCLUSIVE property={} reason={}", prop, e);
         std::process::exit(2);
